@@ -24,7 +24,7 @@ def run_property(prop: str, tier: str, prog=None, write=True):
     prog = prog or Program()
     mod = importlib.import_module(f"mdstatic.rules.{prop}")
     run = core.Run(prop, tier, prog)
-    mod.check(run)
+    core.run_rules(mod, run)
     if getattr(prog, "normalise_log", None):
         run.note("inlined_helpers", prog.normalise_log)
     return run, mod
